@@ -17,7 +17,10 @@ KINDS = {
 "start-position", "initial-event", "bootstrap-of-absent-resource", "bootstrap-contents",
             "read-position", "ring-contents", "errored-without-lag", "event-skipped-or-foreign", "event-dropped", "wrong-event",
             "unexpected-event", "event-after-errored", "read-after-errored", "write-position", "read-by-unknown-watch",
-            "send-by-unknown-watch"},
+            "send-by-unknown-watch",
+            # a change of the stored value that no event announces (or an event that does not match its commit) breaks
+            # "replaying the events over the initial snapshot reproduces the store's contents"
+            "failed-operation-changed-the-store", "version-not-bumped-by-one", "commit-without-its-event", "stored-value"},
     "C12": {"bookmark-outcome", "resume-position", "tail-contents"},
 }
 # C10: "if the backing store rejects a write ... neither in-memory contents nor any watcher observes it"
